@@ -120,3 +120,26 @@ Print Assumptions C12_log_depth_consistent.
 
 Example C12_log_depth_example : (fun _ : nat => 0) 3 = (fun _ : nat => 0) 0 /\ depth_smp (fun _ => 0) 3 = 2.
 Proof. split; reflexivity. Qed.
+
+(* (vi) Inner loop of a component (`smp inner_loop`): the thread count and the partition of the per-atom terms over
+   the threads are explicit parameters of the evaluation; over every commutative monoid the result does not depend on
+   them and equals the serial accumulation.  This is associativity and commutativity of the sum: it holds for the
+   model's exact carrier (Z below) and for R, and NOT for IEEE doubles, whose addition is not associative - on the C++
+   this clause is enforced by the bitwise thread-count oracle of the check only (an OpenMP floating-point reduction
+   violates it). *)
+Theorem C12_inner_loop_partition_independent : forall (M : Type) (op : M -> M -> M) (e : M),
+  (forall a b c, op a (op b c) = op (op a b) c) -> (forall a b, op a b = op b a) -> (forall a, op e a = a) ->
+  forall (nt : nat) (assign : nat -> nat) (terms : list M),
+  (forall k, k < length terms -> assign k < nt) -> inner_loop_value op e nt assign terms = msum op e terms.
+Proof. exact inner_loop_partition_independent_stmt. Qed.
+Print Assumptions C12_inner_loop_partition_independent.
+
+Theorem C12_inner_loop_exact_carrier : forall (nt : nat) (assign : nat -> nat) (terms : list Z),
+  (forall k, k < length terms -> assign k < nt) -> inner_loop_value Z.add 0%Z nt assign terms = zsum terms.
+Proof. exact inner_loop_Z. Qed.
+Print Assumptions C12_inner_loop_exact_carrier.
+
+Example C12_inner_loop_example :
+  (forall k, k < 5 -> k mod 2 < 2) /\ deal 2 (fun k => k mod 2) [1; 2; 3; 4; 5]%Z = [[1; 3; 5]; [2; 4]]%Z /\
+  inner_loop_value Z.add 0%Z 2 (fun k => k mod 2) [1; 2; 3; 4; 5]%Z = 15%Z.
+Proof. split; [intros k _; apply Nat.mod_upper_bound; discriminate|]. split; reflexivity. Qed.
